@@ -397,3 +397,120 @@ def build_engine(prop, tier, replay, t0):
 
 
 ENGINES['C16'] = build_engine
+
+
+# ---------------------------------------------------------------------------------------------
+# Decision-table engines (spec/Tab_*.tla): TLC checks the table, emits every row, validates the observed outcomes
+# ---------------------------------------------------------------------------------------------
+def table_run(module, harness_cmd, extra_consts=None, harness_args=(), timeout=1800):
+    consts = {'CasesFile': '"cases.ndjson"', 'TraceFile': '"trace.ndjson"', 'VerdictFile': '"verdicts.ndjson"'}
+    consts.update(extra_consts or {})
+    g = vlib.run_tlc(module, vlib.cfg_text(consts, init='GenInit', next_='GenNext'), workers=1, timeout=timeout)
+    vlib.tlc_ok(g, module + '/table')
+    rows = os.path.join(g['dir'], 'cases.ndjson')
+    d = vlib.scratch('tab.')
+    trace = os.path.join(d, 'trace.ndjson')
+    st = vlib.harness([harness_cmd, '-cases', rows, '-out', trace] + list(harness_args))
+    res = vlib.run_tlc(module, vlib.cfg_text(consts, init='TraceInit', next_='TraceNext'), workers=1, timeout=timeout, files={'trace.ndjson': trace})
+    vf = os.path.join(res['dir'], 'verdicts.ndjson')
+    if not os.path.exists(vf):
+        raise Inconclusive(module + ' produced no verdicts\n' + res['out'][-4000:])
+    verdicts = [json.loads(l) for l in open(vf) if l.strip()]
+    if not verdicts or verdicts[-1]['prop'] != 'END':
+        raise Inconclusive(module + ' validation stopped early')
+    return verdicts[:-1], st, g, res, trace, sum(1 for _ in open(rows))
+
+
+def report_table(prop, tier, t0, owns, verdicts, st, g, res, trace, nrows, module, rule, assumptions, replay=False, known=None):
+    mine = [v for v in verdicts if v['prop'] in owns]
+    others = {}
+    for v in verdicts:
+        if v['prop'] not in owns:
+            others[v['prop']] = others.get(v['prop'], 0) + 1
+    viol, kf = [], {}
+    for v in mine:
+        hit = None
+        for k in (known or {}).get('known', []):
+            if k['property'] == prop and k.get('match') and all(str(v['detail'].get(a)) == str(b) for a, b in k['match'].items()):
+                hit = k
+        if hit:
+            kf.setdefault(hit['id'], [hit, 0])[1] += 1
+        else:
+            viol.append(v)
+    for kid, (k, n) in kf.items():
+        print('KNOWN-FINDING: property=%s %s (%d rows)' % (prop, k['what'], n))
+    rc = 0
+    if viol:
+        os.makedirs(vlib.REPLAY, exist_ok=True)
+        lines = open(trace).read().splitlines()
+        for i, v in enumerate(viol[:5]):
+            path = '%s/%s-%s.ndjson' % (vlib.REPLAY, prop, v['id'])
+            with open(path, 'w') as f:
+                f.write(lines[v['line'] - 1] + '\n')
+            print('VIOLATION property=%s replay=%s' % (prop, path))
+            log('  verdict: %s %s: %s' % (v['prop'], v['kind'], json.dumps(v['detail'])[:600]))
+        rc = 1
+    if not replay:
+        cov = dict(states=max(1, g['distinct']) + res['distinct'], transitions=max(1, g['generated']) + res['generated'],
+                   traces_validated_against_impl=st.get('evaluations', 0), table_rows=nrows,
+                   evaluations=st.get('evaluations', 0), distinct_nontrivial=st.get('distinct', 0), rule=rule, samples=st.get('samples', []),
+                   mc_config='%s: TLC evaluates the table-level invariant on every row, emits every row, and recomputes the allowed outcome of every logged row' % module,
+                   verdicts_owned_by_other_properties=others, known_findings={k: n for k, (_, n) in kf.items()}, exhaustive=True)
+        vlib.write_evidence(prop, tier, 'model_checking', cov, assumptions, time.time() - t0, len(viol))
+    return rc
+
+
+def c18_engine(prop, tier, replay, t0):
+    vlib.build_harness()
+    verdicts, st, g, res, trace, nrows = table_run('Tab_C18', 'numtab', harness_args=['-neighbours=true'])
+    owns = ['C18'] if prop == 'C18' else ['C03']
+    return report_table(prop, tier, t0, owns, verdicts, st, g, res, trace, nrows, 'Tab_C18',
+                        'rows = source representation x numeric schema x symbolic magnitude point (23 points at and beyond every type bound, NaN, Inf); each row is concretised at the point and at '
+                        'neighbours of the same class; the outcome (same / trunc / issue / changed) is decided exactly with math/big; distinct = distinct (representation, schema, concrete value)',
+                        ['magnitude classes are symbolic in TLA+ (32-bit integers): membership of concrete values in classes is decided by the harness with math/big',
+                         'decimal strings that float64 cannot represent exactly are not used as float sources'], known=vlib.load_known())
+
+
+ENGINES['C18'] = c18_engine
+
+
+def c03_engine(prop, tier, replay, t0):
+    """C03 = structure through the traversal machine (exec engine) + the documented-coercion table + numeric leaves."""
+    if replay and not open(replay).readline().startswith('{"e":"call"'):
+        # a table row
+        line = json.loads(open(replay).readline())
+        mod, cmd = ('Tab_C18', 'numtab') if 'outcome' in line else ('Tab_C03', 'coercetab')
+        vlib.build_harness()
+        verdicts, st, g, res, trace, nrows = table_run(mod, cmd)
+        bad = [v for v in verdicts if v['prop'] == 'C03' and v['detail'].get('dest') == line.get('dest') and v['detail'].get('src', v['detail'].get('rep')) == line.get('src', line.get('rep'))]
+        for v in bad[:3]:
+            print('VIOLATION property=C03 replay=%s' % replay)
+        return 1 if bad else 0
+    rc = exec_engine(prop, tier, replay, t0)
+    if replay:
+        return rc
+    extra = {}
+    nviol = 0
+    os.makedirs(vlib.REPLAY, exist_ok=True)
+    for mod, cmd, args in (('Tab_C03', 'coercetab', []), ('Tab_C18', 'numtab', ['-neighbours=true'])):
+        verdicts, st, g, res, trace, nrows = table_run(mod, cmd, harness_args=args)
+        mine = [v for v in verdicts if v['prop'] == 'C03']
+        lines = open(trace).read().splitlines()
+        for v in mine[:5]:
+            path = '%s/C03-%s-%s.ndjson' % (vlib.REPLAY, mod, v['id'])
+            open(path, 'w').write(lines[v['line'] - 1] + '\n')
+            print('VIOLATION property=C03 replay=%s' % path)
+            log('  verdict: %s %s: %s' % (v['prop'], v['kind'], json.dumps(v['detail'])[:600]))
+        nviol += len(mine)
+        extra[mod] = dict(rows=nrows, evaluations=st['evaluations'], samples=st['samples'][:4], tlc_states=res['distinct'])
+    ev = json.load(open('%s/C03.json' % vlib.EVID))
+    ev['coverage']['coercion_tables'] = extra
+    ev['coverage']['traces_validated_against_impl'] += sum(x['evaluations'] for x in extra.values())
+    ev['coverage']['evaluations'] += sum(x['evaluations'] for x in extra.values())
+    ev['violations'] += nviol
+    ev['wall_s'] = round(time.time() - t0, 2)
+    json.dump(ev, open('%s/C03.json' % vlib.EVID, 'w'), indent=1, sort_keys=True)
+    return 1 if (rc or nviol) else 0
+
+
+ENGINES['C03'] = c03_engine
